@@ -780,6 +780,30 @@ func genC01(tier string, rng *Rng) {
 	runC01("nil-state-element", one(&rwp.InboundMessage{States: []*rwp.HWCState{nil}}))
 	runC01("nil-register-element", one(&rwp.InboundMessage{Registers: []*rwp.Register{{Reg: 0, Id: "A", Value: 1}, nil}}))
 
+	// (iii-b) SEVERAL different images in one call: in one message (two or three state records, each with
+	// its own image of another length / format / offset / size), in successive messages, with shared and
+	// distinct targets (seed C05-9: encoded parts cached per message and reused for the next image)
+	for i := 0; i < 60*scale; i++ {
+		lens := [][]int{{256, 400}, {400, 256}, {1, 171}, {170, 170}, {341, 5, 341}, {5, 600, 7}}[i%6]
+		var sts []*rwp.HWCState
+		for k, n := range lens {
+			g := rng.Gfx(n)
+			g.ImageType = rwp.HWCGfx_ImageTypeE((i + k) % 3)
+			g.W, g.H = uint32(8+8*((i+k)%5)), uint32(4+k)
+			g.XYoffset = (i+k)%2 == 0
+			ids := []uint32{uint32(20 + k)}
+			if (i+k)%4 == 3 {
+				ids = []uint32{uint32(20 + k), 20}
+			}
+			sts = append(sts, &rwp.HWCState{HWCIDs: ids, HWCGfx: g})
+		}
+		runC01("gfx-several-in-one-message", one(stMsg(sts...)))
+		var ms []*rwp.InboundMessage
+		for _, st := range sts {
+			ms = append(ms, stMsg(st))
+		}
+		runC01("gfx-several-messages", ms)
+	}
 	// (iv-b) submission order WITHIN one call: the same component written two or three times (same
 	// kind of state, or different kinds) with a clearing command / another command / a register /
 	// a write to another component / nothing in between, in one message and spread over several
